@@ -50,6 +50,12 @@ var units = []unit{
 		func(t time.Time) int64 { return t.UnixMicro() }, math.MinInt64 / 1000, math.MaxInt64 / 1000},
 	{"long-nanos", `"long"`, func(i int64) time.Time { return time.Unix(0, i).UTC() },
 		func(t time.Time) int64 { return t.UnixNano() }, math.MinInt64, math.MaxInt64},
+	// the same plain long spelled as a JSON object, and with a logical type the library does not know
+	// (the specification says unknown logical types are ignored): still the nanosecond convention
+	{"long-nanos-objectform", `{"type":"long"}`, func(i int64) time.Time { return time.Unix(0, i).UTC() },
+		func(t time.Time) int64 { return t.UnixNano() }, math.MinInt64, math.MaxInt64},
+	{"long-nanos-unknown-logical", `{"type":"long","logicalType":"made-up-by-the-caller"}`, func(i int64) time.Time { return time.Unix(0, i).UTC() },
+		func(t time.Time) int64 { return t.UnixNano() }, math.MinInt64, math.MaxInt64},
 }
 
 func floorDiv(a, b int64) int64 {
